@@ -880,11 +880,11 @@ def check_conc(pid, tier, seed, scratch, replay):
 def check_teletext(pid, tier, seed, scratch, replay):
     return codec_check(pid, tier, seed, scratch, dict(
         name="teletext", gen_module="GenTeletext", gen_cfg="GenTeletext.cfg", drive_cmd="teletext", trace_module="TraceTeletext", trace_cfg="TraceTeletext.cfg",
-        mc=[("TeletextMC", "MC_Teletext_%s.cfg" % f, None) for f in "SPEAHC"],
+        mc=[("TeletextMC", "MC_Teletext_%s.cfg" % f, None) for f in "SPEAHCI"],
         gens=[(dict(GEN_FAM="S"), 1, 1, None), (dict(GEN_FAM="P"), 2, 2, None), (dict(GEN_FAM="E"), 3, 3, None), (dict(GEN_FAM="A"), 1, 1, None),
-              (dict(GEN_FAM="H"), 1, 1, None), (dict(GEN_FAM="C"), 1, 1, None)],
+              (dict(GEN_FAM="H"), 1, 1, None), (dict(GEN_FAM="C"), 1, 1, None), (dict(GEN_FAM="I"), 1, 1, None)],
         nrand=(0, 0), per_jvm=400,
-        rule=("TLC enumerates transport-stream descriptions of six families - S serial mode: every order of 3 target-page instances "
+        rule=("TLC enumerates transport-stream descriptions of seven families - S serial mode: every order of 3 target-page instances "
               "(one of them an erase instance), a distractor page in the same magazine and the same page number in another magazine, "
               "x 1..3 units per PES; P parallel mode: every merge of the target magazine's packet sequence with another magazine's (120 "
               "interleavings); E: each of 11 extra unit kinds (stuffing, non-subtitle unit, X/26, X/28, M/29, 8/30, wrong framing code, "
@@ -892,7 +892,8 @@ def check_teletext(pid, tier, seed, scratch, replay):
               "auto-detection of page (first subtitle-flagged page) and PID (first teletext PID of the PMT) with PES of a second teletext "
               "PID and of a non-teletext PID interleaved; H: hexadecimal page numbers (1F vs 25, A0, FF); C: all 7 character-set codes x "
               "all 13 national-option positions, sets switching between instances, colour / double-height codes, text outside the box, "
-              "parity errors. Each description is encoded by the harness (own Hamming 8/4 / parity / data-unit encoder), multiplexed by "
+              "parity errors; I: every sequence of 4 instances of the target page, each empty (erase page / repeated header) or not, x 1..3 "
+              "units per PES. Each description is encoded by the harness (own Hamming 8/4 / parity / data-unit encoder), multiplexed by "
               "the astits muxer and read by ReadFromTeletext with the PID auto-detected and given; TLC validates the returned cues "
               "against the normative decoder Expected (spec/Teletext.tla), which is itself checked against the truth each family "
               "carries by construction (TeletextMC). Non-trivial = distinct (stream, options)."),
